@@ -2,7 +2,8 @@ import os
 
 from typing import Optional
 
-from antlr4 import CommonTokenStream, FileStream
+from antlr4 import CommonTokenStream, FileStream, Token
+from antlr4.error.ErrorListener import ErrorListener
 from afmparser import AFMParser
 from afmparser.AFMLexer import AFMLexer
 
@@ -18,6 +19,17 @@ from flamapy.metamodels.fm_metamodel.models import (
     Relation,
     Attribute,
 )
+
+
+class SyntaxErrorCollector(ErrorListener):
+    def __init__(self) -> None:
+        super().__init__()
+        self.errors: list[str] = []
+
+    def syntaxError(  # noqa: PLR0913
+        self, recognizer, offendingSymbol, line, column, msg, e  # type: ignore
+    ) -> None:
+        self.errors.append(f"Syntax error at line {line}, column {column}: {msg}")
 
 
 class AFMReader(TextToModel):
@@ -37,7 +49,17 @@ class AFMReader(TextToModel):
         lexer = AFMLexer(input_stream)
         stream = CommonTokenStream(lexer)
         parser = AFMParser(stream)
+        # lexical and syntax errors make the document invalid: fail instead of building a model from the recovered tree
+        error_listener = SyntaxErrorCollector()
+        lexer.removeErrorListeners()
+        lexer.addErrorListener(error_listener)
+        parser.removeErrorListeners()
+        parser.addErrorListener(error_listener)
         self.parse_tree = parser.feature_model()
+        if error_listener.errors:
+            raise FlamaException("Parsing failed due to syntax errors: " + "; ".join(error_listener.errors))
+        if stream.LA(1) != Token.EOF:  # the grammar rule does not consume EOF: text it could not parse is left over
+            raise FlamaException(f"Parsing failed: unexpected text at line {stream.LT(1).line}")
 
     def transform(self) -> FeatureModel:
         self.set_parse_tree()
